@@ -193,6 +193,13 @@ Proof.
   intros ws d p H. rewrite (dir_last_gen ws [] d p H). now destruct (last_write p ws).
 Qed.
 
+Theorem zip_first_dir_last : forall ws z d p,
+  run_zip ws = Some z -> run_dir ws = Some d ->
+  lookup p z = first_write p ws /\ lookup p d = last_write p ws.
+Proof.
+  intros ws z d p Hz Hd. split; [exact (zip_first_wins ws z p Hz)|exact (dir_last_wins ws d p Hd)].
+Qed.
+
 (** ---- refutation when a path repeats, and the asymmetry of the error cases -- *)
 Open Scope string_scope.
 Example repeat_differs :
